@@ -151,6 +151,23 @@ class Engine:
             return st[('n', d)]
         return None
 
+    def span_to_cursor(self, e, v, st, depth=0):
+        """e is `hi - v` (directly or through a local initialised with it) for a cursor `hi` tracked on this path"""
+        tu = self.tu
+        e = tu.strip(e, casts=True)
+        if e is None or depth > 3:
+            return False
+        if e.get('kind') == 'BinaryOperator' and e.get('opcode') == '-':
+            l, r = tu.kids(e)
+            hi, _ = self.decl_of(l)
+            lo, _ = self.decl_of(r)
+            return hi is not None and lo == v and ('c', hi) in st
+        if e.get('kind') == 'DeclRefExpr':
+            d = tu.nodes.get(e.get('referencedDecl', {}).get('id'))
+            if d is not None and d.get('kind') == 'VarDecl' and tu.kids(d) and 'const' in d.get('type', {}).get('qualType', ''):
+                return self.span_to_cursor(tu.kids(d)[-1], v, st, depth + 1)
+        return False
+
     def exact_len(self, e, st):
         """exact length of the NUL-terminated string an expression designates: a literal, or a cursor bound to one that has not moved"""
         lb = self.lit_bytes(e)
@@ -1103,22 +1120,27 @@ class Engine:
         cf = tu.callee_fn(n)
         sd, obj, args = tu.call_parts(n)
         qn = sd.get('q', '').split('::')[-1]
-        if qn in ('memcmp', 'bcmp') and len(args) == 3:
-            # memcmp may read all n bytes of both operands, wherever the first difference is
+        if qn in ('memcmp', 'bcmp', 'memcpy', 'memmove', 'mempcpy') and len(args) == 3:
+            # memcmp may read all n bytes of both operands, wherever the first difference is; memcpy reads all n bytes of its source
             nbytes = self.int_of(args[2], st)
-            for a in args[:2]:
+            for a in (args[:2] if qn in ('memcmp', 'bcmp') else args[1:2]):
                 v, nm = self.decl_of(a)
                 if v is None or ('c', v) not in st:
                     continue
                 K = st[('c', v)][0]
                 avail = st[('len', v)] + 1 if ('len', v) in st else K + 1      # bytes known to lie inside the object
+                if nbytes is None and self.span_to_cursor(args[2], v, st):
+                    continue        # the length is `other cursor - this cursor`: the bytes between two positions of the scan
                 if nbytes is None:
                     self.undecide(f, '%s reads through cursor `%s` with a length that is not known on this path' % (qn, nm), n)
                 elif nbytes > avail:
                     self.finding('R-C16-1', f, 'read-past-nul:%s(%s)' % (qn, nm),
-                                 '`%s` may read all %d bytes at `%s` although only %d leading byte(s) are known to be non-NUL there: unlike a '
-                                 'byte-by-byte comparison it does not stop at the first difference, so at a file that ends early it reads '
-                                 'past the terminating NUL, outside the buffer' % (tu.show(n)[:50], nbytes, nm, K), n)
+                                 '`%s` %s all %d bytes at `%s` although only %d leading byte(s) are known to be non-NUL there: unlike a '
+                                 'byte-by-byte %s it does not stop at the %s, so at a file that ends early it reads '
+                                 'past the terminating NUL, outside the buffer' % (
+                                     tu.show(n)[:50], 'may read' if qn in ('memcmp', 'bcmp') else 'reads', nbytes, nm, K,
+                                     'comparison' if qn in ('memcmp', 'bcmp') else 'copy',
+                                     'first difference' if qn in ('memcmp', 'bcmp') else 'terminator'), n)
             return [fz(st)]
         if cf is None or tu.cfg(cf) is None:
             # library call: a tracked cursor handed over by non-const reference would escape
@@ -1379,6 +1401,42 @@ def check_readxml(ctx, tu):
             builder, bufvar, sizevar = cand, bv, sv
             break
     if bufvar is None:
+        # an array from operator new: value-initialised (`new char[n + 1]()`) is a zeroed buffer in another container - not followed here;
+        # default-initialised bytes stay indeterminate wherever fread (whose result must then bound the parse) delivers less than asked for
+        news = [(cand, x) for cand in [f] + [y for y in reachable_fns(tu, f) if y['id'] != f['id'] and tu.fn_file(y) == XML_FILE]
+                for x in tu.walk(tu.body(cand)) if x.get('kind') == 'CXXNewExpr' and x.get('isArray') and
+                re.search(r'\bchar\b', x.get('type', {}).get('qualType', ''))]
+        rd = [x for x in tu.walk(tu.body(f)) if x.get('kind') == 'CallExpr' and tu.sd(x).get('q', '').split('::')[-1] in ('fread', 'fread_unlocked')]
+        for cand, x in news:
+            if cand['id'] != f['id'] and not rd:
+                continue
+            if x.get('initStyle') in ('call', 'list'):
+                ctx.undecided(R3, inst, 'the file buffer is a value-initialised `%s`, not a std::vector<char>: this form is not followed' % tu.show(x)[:50],
+                              tu.loc(x))
+                return
+            def discarded(y):
+                q = tu.par(y)
+                while q is not None and q.get('kind') in ('ImplicitCastExpr', 'ParenExpr'):
+                    q = tu.par(q)
+                return q is not None and q.get('kind') in ('CStyleCastExpr', 'CXXStaticCastExpr', 'CXXFunctionalCastExpr') and \
+                    q.get('type', {}).get('qualType') == 'void'
+            used = False
+            for c in rd:
+                holder = tu.par(c)
+                while holder is not None and holder.get('kind') in ('ImplicitCastExpr', 'ParenExpr'):
+                    holder = tu.par(holder)
+                if holder is not None and holder.get('kind') == 'VarDecl':
+                    used = used or any(y.get('kind') == 'DeclRefExpr' and tu.ref_decl(y) == holder['id'] and not discarded(y)
+                                       for y in tu.walk(tu.body(f)))
+                elif holder is not None and holder.get('kind') not in ('CompoundStmt', 'CStyleCastExpr'):
+                    used = True
+            if rd and not used:
+                ctx.violation(R3, inst, 'the file buffer `%s` is not zero-initialised (only its last byte is set) and the number of bytes fread '
+                              'actually delivered is not used: when the read is short (I/O error, file truncated between ftell and fread, '
+                              'text-mode translation) the parser runs over indeterminate heap bytes up to the terminator - it parses '
+                              'whatever earlier allocations left there' % tu.show(x)[:50], tu.loc(x),
+                              key='%s|%s|readXML|buffer-not-zeroed' % (R3, XML_FILE))
+                return
         ctx.violation(R3, inst, 'the file buffer is not a std::vector<char> of (numBytes + k, k >= 1) zero-initialised bytes: '
                       'the parser relies on a terminating NUL', tu.fn_loc(f), key='%s|%s|readXML|buffer-not-nul-terminated' % (R3, XML_FILE))
         return
@@ -1830,6 +1888,38 @@ class StaticState:
             return False
         return True
 
+    MUTATORS = {'resize', 'assign', 'push_back', 'emplace_back', 'clear', 'insert', 'erase', 'reserve', 'swap', 'append', 'pop_back',
+                'emplace', 'operator=', 'operator+=', 'shrink_to_fit', 'reset', 'replace', 'push', 'pop', 'operator[]', 'at', 'data', 'begin',
+                'end', 'front', 'back'}
+
+    def is_write(self, n):
+        """the use changes the object, or hands out non-const access to it: assignment / increment, a mutating or access-granting member
+        called on the (non-const) object, its address taken"""
+        tu = self.tu
+        p = tu.par(n)
+        while p is not None and p.get('kind') in ('ImplicitCastExpr', 'ParenExpr'):
+            if p.get('kind') == 'ImplicitCastExpr' and 'const' in p.get('type', {}).get('qualType', '').split('<')[0] and \
+                    p.get('castKind') == 'NoOp':
+                return False        # viewed as const from here on
+            n, p = p, tu.par(p)
+        if p is None:
+            return False
+        k = p.get('kind')
+        if k == 'UnaryOperator' and p.get('opcode') in ('++', '--', '&'):
+            return True
+        if k in ('BinaryOperator', 'CompoundAssignOperator') and '=' in p.get('opcode', '') and \
+                p.get('opcode') not in ('==', '!=', '<=', '>=') and tu.kids(p)[0] is n:
+            return True
+        if k == 'MemberExpr':
+            pp = tu.par(p)
+            if pp is not None and pp.get('kind') == 'CXXMemberCallExpr':
+                return (p.get('name') or '') in self.MUTATORS
+        if k == 'CXXOperatorCallExpr':
+            q = tu.sd(p).get('q', '').split('::')[-1]
+            ks = tu.kids(p)
+            return q in self.MUTATORS and len(ks) > 1 and tu.strip(ks[1], casts=True) is tu.strip(n, casts=True)
+        return False
+
     def try_touches(self, n, stop, v):
         """n lies in the try block of a try statement that mentions v (a handler might restore it)"""
         tu = self.tu
@@ -1953,6 +2043,36 @@ def state_findings(tu, ex, entry):
         name = d.get('name')
         qt = d.get('type', {}).get('qualType', '')
         uses = ss.uses[vid]
+        if not d.get('tls') and not re.search(r'atomic|mutex|once_flag', qt):
+            ws = [(f, n) for f, n in uses if ss.is_write(n)]
+            if ws:
+                fset = {f['id']: f for f, _ in uses}
+                locked = any(
+                    (x.get('kind') == 'VarDecl' and re.search(r'lock_guard|unique_lock|scoped_lock', x.get('type', {}).get('qualType', ''))) or
+                    (x.get('kind') in ('CallExpr', 'CXXMemberCallExpr') and tu.sd(x).get('q', '').split('::')[-1] in ('lock', 'call_once'))
+                    for f in fset.values() for x in tu.walk(tu.body(f)))
+                if not locked:
+                    out.append(('shared', d, ws[0][0], ws[0][1], None))
+                    continue
+        if 'atomic' in qt:
+            def discarded_update(n):
+                p1 = tu.par(n)
+                while p1 is not None and p1.get('kind') in ('ImplicitCastExpr', 'ParenExpr'):
+                    p1 = tu.par(p1)
+                call = None
+                if p1 is not None and p1.get('kind') == 'MemberExpr' and (p1.get('name') or '') in ('fetch_add', 'fetch_sub', 'store', 'operator++', 'operator--', 'operator+=', 'operator-='):
+                    call = tu.par(p1)
+                elif p1 is not None and p1.get('kind') == 'CXXOperatorCallExpr' and tu.sd(p1).get('q', '').split('::')[-1] in ('operator++', 'operator--', 'operator+=', 'operator-='):
+                    call = p1
+                if call is None:
+                    return False
+                pp = tu.par(call)
+                while pp is not None and pp.get('kind') in ('ExprWithCleanups', 'ImplicitCastExpr', 'ParenExpr'):
+                    pp = tu.par(pp)
+                return pp is not None and pp.get('kind') in ('CompoundStmt', 'IfStmt', 'ForStmt', 'WhileStmt', 'CStyleCastExpr')
+            if all(discarded_update(n) for _, n in uses):
+                out.append(('ok', d, None, None, 'atomic counter that is only updated (results discarded): cannot influence a result'))
+                continue
         if not any(ss.is_read(n) for _, n in uses):
             out.append(('ok', d, None, None, 'written but never read by the parser: cannot influence a result'))
             continue
@@ -2039,6 +2159,12 @@ def check_exception_discipline(ctx, tu):
                               ('calls %s, which can throw a parse error (%s),' % (cf['q'].split('::')[-1], ' -> '.join(ex.witness(cf))[:200]))
                               if cf is not None else 'throws', 'thread-local' if d.get('tls') else 'static'),
                           loc, key=key + 'unbalanced-on-exception')
+        elif kind == 'shared':
+            ctx.violation(R7, inst, '`%s` (%s) has static storage duration - one object for all threads - and %s changes it (`%s`) without '
+                          'taking a lock: two readXML calls running at the same time on different files share it, so one call reads what the '
+                          'other wrote (names and contents of the other file, mismatched tags) or uses storage the other has just '
+                          'reallocated' % (name, d.get('type', {}).get('qualType', '')[:60], f['q'].replace('rkcommon::', ''),
+                                           tu.show(tu.par(n) or n)[:50]), loc, key=key + 'shared-static-unsynchronised')
         elif kind == 'drift':
             ctx.violation(R7, inst, 'readXML returns with `%s` changed by %s: every call shifts state that the parser reads' % (name, det), loc,
                           key=key + 'drift')
@@ -3632,6 +3758,7 @@ def check_reads_file(ctx, tu):
 def run(ctx):
     ctx.assume('the buffer handed to parseXML is NUL-terminated (established by R-C16-3 for readXML)')
     ctx.assume('library character predicates (isalpha, isdigit, isspace) return false for the NUL byte')
+    ctx.assume('readXML may run in several threads at once on different files (a free function on distinct data)')
     ctx.assume('exceptions thrown by the C++ standard library for resource exhaustion (std::bad_alloc, std::length_error) are outside the check; '
                'std::sto* conversions of document text are inside (R-C16-16)')
     tu = ctx.front.parse(XML_FILE, 'TBB')
